@@ -56,7 +56,6 @@ def encEv : Ev → V
   | .removed h => .list [.atom "removed", n h]
   | .ranF fid k added enq it now => .list [.atom "ranF", n fid, n k, n added, n enq, n it, .int now]
   | .fin w e => .list [.atom "fin", encWho w, encEnd e]
-  | .failedFuture => .list [.atom "failedFuture"]
   | .logged w => .list [.atom "logged", encWho w]
 
 def decEv (v : V) : Option Ev := do
@@ -70,7 +69,6 @@ def decEv (v : V) : Option Ev := do
   | [.atom "ranF", fid, k, added, enq, it, now] =>
     pure (.ranF (← fid.nat?) (← k.nat?) (← added.nat?) (← enq.nat?) (← it.nat?) (← now.int?))
   | [.atom "fin", w, e] => pure (.fin (← decWho w) (← decEnd e))
-  | [.atom "failedFuture"] => pure .failedFuture
   | [.atom "logged", w] => pure (.logged (← decWho w))
   | _ => none
 
